@@ -109,6 +109,11 @@ def tokens(tier, rng):
                 lit(10, text(v, 10), "U", w, "_")
         lit(10, "1" + "0" * 19 + "7" + "0" * 19, "U", max(w, 256), "_")
         lit(10, "9" * 19 + "0" * 19, "U", max(w, 128), "_")
+    # a base prefix is recognised only in the first two characters: `0_x1f_U8` is the decimal digit string 0_x1f_ (the Rust lexer
+    # reads it as decimal 0_ with suffix x1f_U8), so it holds an invalid decimal digit and must be rejected, not read as hexadecimal
+    for t in ["0_x1f_U8", "0_b101_U8", "0_o17_U8", "0_x_ff_B16", "0__x1f_U8", "0_xff_U64", "0_b1_U1", "0_o7_U64", "0_x0_U0",
+              "00x1f_U8", "00b1_U8", "0_0x1_U8", "0_x1f_B8", "0_b11_B8", "0_XFF_U8", "0_x1_U256", "0_b1_U65", "0_o1_U128"]:
+        toks.append((t, None))
     # non-matching tokens: must pass through unchanged
     for t in ["1_u8", "300_u16", "0xAB12", "0xffB8", "0xBBBB_B432_u64", "12", "0b101", "0o17", "1_000_000u64", "255u8", "0xB", "0xB8",
               "0xABB16", "2.5", "1.0_f64", "1e3", '"5_U8"', '"U8"', "'U'", "'B'", 'b"1_U8"', "true", "0x1B8_i32", "0xffu8", "7_i64",
